@@ -10,6 +10,8 @@ import Tickit.Proof.LifeTop
 import Tickit.Proof.LifeTopEnd
 import Tickit.Proof.LifeFrames
 import Tickit.Proof.LifeOut
+import Tickit.Model.LifeKids
+import Tickit.Model.LifeProc
 import Tickit.Model.LifeTmp
 import Tickit.Proof.LifeTmp
 import Tickit.Gen.Life
@@ -1019,5 +1021,56 @@ example : (match ({} : Tmp).lineRun (List.replicate 200 0x2500) with | .ok r => 
 
 /-- The model tells written bytes from fresh ones: a block grown *without* keeping its contents is refused by `Tmp.read`. -/
 example : (match ({ mem := List.replicate 512 none ++ [], len := 255 } : Tmp).read with | .ub .mem _ => true | _ => false) = true := by decide +kernel
+
+/-! ## `tickit_window_get_children`: "calls that copy out to a caller's buffer never write beyond the length given" -/
+
+/-- The loop of `tickit_window_get_children` on an array of `n` slots never stores behind it, whatever the list of children
+    and wherever it starts, and reports no more than `n`. -/
+theorem get_children_loop_in_bounds (n : Nat) : ∀ (cs : List WinTree.Id) (buf : List (Option WinTree.Id)) (ret : Nat),
+    buf.length = n → ∃ buf' ret', getChildrenLoop n cs buf ret = .ok (buf', ret') ∧ buf'.length = n ∧ (ret ≤ n → ret' ≤ n) := by
+  intro cs
+  induction cs with
+  | nil => intro buf ret h; exact ⟨buf, ret, rfl, h, id⟩
+  | cons c rest ih =>
+    intro buf ret h
+    by_cases hr : ret < n
+    · have hs : kidsStore buf ret c = .ok (buf.set ret (some c)) := by
+        unfold kidsStore; rw [if_pos (by omega)]
+      obtain ⟨b', r', e, hl, hle⟩ := ih (buf.set ret (some c)) (ret + 1) (by simp [h])
+      refine ⟨b', r', ?_, hl, fun _ => hle (by omega)⟩
+      simp only [getChildrenLoop, if_pos hr, hs]; exact e
+    · refine ⟨buf, ret, ?_, h, id⟩
+      simp only [getChildrenLoop, if_neg hr]
+
+/-- `tickit_window_get_children(win, children, n)` on a live window, for every `n` (0 included) and every number of
+    children: no store behind the `n` slots, and the value returned is at most `n`. -/
+theorem get_children_never_writes_beyond (st : St) (w n : Nat) (x : WinTree.Win) (hx : st.tree.wins[w]? = some x)
+    (hf : x.freed = false) : ∃ buf ret, getChildren st w n = .ok (buf, ret) ∧ buf.length = n ∧ ret ≤ n := by
+  obtain ⟨b, r, e, hl, hle⟩ := get_children_loop_in_bounds n x.children (List.replicate n none) 0 (by simp)
+  refine ⟨b, r, ?_, hl, hle (Nat.zero_le n)⟩
+  unfold getChildren; rw [hx]; simp only [hf]; exact e
+
+/-- Non-vacuity: three children into one slot: the first is stored, 1 is returned; a store at index `n` is a failure. -/
+example : (match getChildrenLoop 1 [5, 6, 7] [none] 0 with | .ok (b, r) => b == [some 5] && r == 1 | _ => false) = true := by decide
+example : (match kidsStore [none] 1 9 with | .ub .mem _ => true | _ => false) = true := by decide
+
+/-! ## process watches of the default loop: the deferred delivery of a child that had exited already -/
+
+/-- Every deferred delivery still queued points at a process watch that has not been freed. -/
+def ProcInv (p : ProcSt) : Prop :=
+  ∀ (l : Nat) (n : NoteRec), p.notes[l]? = some n → n.pending = true →
+    ∃ r : ProcRec, p.recs[n.target]? = some r ∧ r.freed = false ∧ r.notify = some l
+
+/-- OPEN (full statement): watching, cancelling (with the cancellation of the pending delivery) and loop turns keep
+    `ProcInv`, and a loop turn under `ProcInv` never touches a freed watch. -/
+def process_notify_never_touches_freed : Prop :=
+  (∀ p e, ProcInv p → ProcInv (p.watch e)) ∧ (∀ p k, ProcInv p → ProcInv (p.cancel true k)) ∧
+  (∀ p, ProcInv p → ∃ p', p.tick = .ok p' ∧ ProcInv p')
+
+/-- Instances: watch an exited child, cancel, turn: nothing runs; without the cancellation of the pending delivery the
+    turn stores into the freed watch; left alone, the watch fires once. -/
+example : (match ((({} : ProcSt).watch true).cancel true 0).tick with | .ok p => p.log.isEmpty | _ => false) = true := by decide
+example : (match ((({} : ProcSt).watch true).cancel false 0).tick with | .ub .mem _ => true | _ => false) = true := by decide
+example : (match (({} : ProcSt).watch true).tick with | .ok p => p.log == ["C0"] && !p.pending 0 | _ => false) = true := by decide
 
 end Tickit.Props.C08
